@@ -24,7 +24,7 @@ func init() {
 		Doc: "a slice stored into a node's Key/Value/Link field is fresh-backed (make, literal, nil, or append whose first operand is fresh-backed or the node's own field), so no two nodes share a backing array; " +
 			"a whole-node struct copy is allowed only into a local that never escapes.",
 		Run: runALIAS})
-	Register(&Rule{ID: "CLONE", Props: []string{"C02"}, Min: 3,
+	Register(&Rule{ID: "CLONE", Props: []string{"C02", "C16"}, Min: 3,
 		Doc: "Clone installs as root the result of ToShared applied to the loaded root; ToShared returns its receiver only under `shared`, otherwise a fresh copy whose in-memory child links are themselves replaced by their ToShared.",
 		Run: runCLONE})
 	Register(&Rule{ID: "ESCAPE", Props: []string{"C02", "C11"}, Min: 10,
@@ -502,6 +502,61 @@ func runCLONE(c *Ctx) {
 				c.OK(P.InstrPos(st), "Clone installs ToShared(root) as the clone's root", "value is result #0 of ToShared", false)
 			} else {
 				c.Violation(clone, P.InstrPos(st), "Clone root not produced by ToShared", "the clone's root must be the ToShared form of the loaded root; installing the live node lets the two trees mutate the same unshared nodes")
+			}
+		}
+	}
+	// (1b) once the root was loaded, no successful return may skip installing it: a clone that keeps the
+	// name makes every user of the clone (Cursor) fetch the top node again
+	{
+		load := c.P.MastFunc("(*Mast).load")
+		ei := ir.ErrorResultIndex(clone.Signature)
+		for _, ci := range CallsOf(clone) {
+			if load == nil || ci.Common().StaticCallee() != load {
+				continue
+			}
+			isRootStore := func(i ssa.Instruction) bool {
+				st, ok := i.(*ssa.Store)
+				if !ok {
+					return false
+				}
+				fa, ok := st.Addr.(*ssa.FieldAddr)
+				return ok && ir.IsPtrToNamed(fa.X.Type(), "Mast") && ir.FieldName(fa.X.Type(), fa.Field) == "root"
+			}
+			for _, r := range ir.Returns(clone) {
+				if ei < 0 || !ir.IsNilConst(r.Results[ei]) || !ir.InstrReaches(ci, r) {
+					continue
+				}
+				// is there a path load → return that avoids every root store?
+				skipped := false
+				seen := map[*ssa.BasicBlock]bool{}
+				var walk func(b *ssa.BasicBlock, from int)
+				walk = func(b *ssa.BasicBlock, from int) {
+					if skipped || (from == 0 && seen[b]) {
+						return
+					}
+					if from == 0 {
+						seen[b] = true
+					}
+					for i := from; i < len(b.Instrs); i++ {
+						if isRootStore(b.Instrs[i]) {
+							return
+						}
+						if b.Instrs[i] == ssa.Instruction(r) {
+							skipped = true
+							return
+						}
+					}
+					for _, s2 := range b.Succs {
+						walk(s2, 0)
+					}
+				}
+				walk(ci.Block(), ir.InstrIndex(ci)+1)
+				if skipped {
+					f := c.Violation(clone, P.InstrPos(r), "Clone can return without installing the loaded root", "on some path the clone keeps the root's name although the node was loaded: every use of the clone (Cursor) has to fetch the top node a second time, and the clone does not share the in-memory root")
+					f.Props = []string{"C16"} // a kept name is still an immutable version: only the read bound breaks
+				} else {
+					c.OK(P.InstrPos(r), "Clone installs the loaded root on every successful path", "every path from the load to the return passes the root store", false)
+				}
 			}
 		}
 	}
